@@ -573,6 +573,21 @@ static void gen_simd(hctx* h) {
         sweep(h, &KD[k], maxn, h->thorough);
         if (KD[k].kind == K_PACK_BOOLS) for (int64_t n = 1; n <= 67; n++) gen_pack_offdomain(h, &KD[k], n);
     }
+    /* 2b. reduce-shaped kernels at counts where a narrow accumulator would wrap (16-bit lanes: 8 x 65536 values):
+     * the input is described by a pattern, not printed */
+    {
+        static const int64_t big[] = { 524287, 524288, 524289, 600000, 1048576 + 5 };
+        for (int bi = 0; bi < (h->thorough ? 5 : 4); bi++) for (int pat = 0; pat < 3; pat++) {
+            int64_t n = big[bi];
+            int16_t* lv = (int16_t*)h_alloc((size_t)n * 2);
+            for (int64_t i = 0; i < n; i++) lv[i] = pat == 0 ? 1 : pat == 1 ? (int16_t)(i % 8 != 0) : (int16_t)(i % 8 == 3);
+            fprintf(h->out, "simd_count_big n=%lld pat=%d", (long long)n, pat); h_call(h);
+            long long rs = (long long)scalar_count_non_nulls(lv, n, 1), re = (long long)carquet_sse_count_non_nulls(lv, n, 1),
+                      rd = (long long)carquet_dispatch_count_non_nulls(lv, n, 1);
+            fprintf(h->out, " | scalar=%lld sse=%lld dispatch=%lld p_eq_scalar=%d\n", rs, re, rd, rs == re && rs == rd);
+            h->n_lines++; free(lv);
+        }
+    }
     /* 3. CRC32C check string and a long buffer (all four width levels of the hardware loop) */
     {
         const kdesc* d = NULL; for (int k = 0; k < NKD; k++) if (KD[k].kind == K_CRC) d = &KD[k];
